@@ -116,7 +116,7 @@ func TestVerifRecC16(t *testing.T) {
 			_ = t1.ToBytes(c1[:])
 			emit(map[string]interface{}{"op": "fsv", "k": ib(kb), "d0": i128(x.d0), "d1": i128(x.d1), "timeout": false,
 				"s0": ib(b0[:]), "s1": ib(b1[:]), "t0": ib(c0[:]), "t1": ib(c1[:]), "neg0": x.d0.IsNegative(), "neg1": x.d1.IsNegative()})
-		case <-time.After(5 * time.Second):
+		case <-time.After(90 * time.Second): // the operation takes microseconds; the margin is for a heavily loaded machine
 			emit(map[string]interface{}{"op": "fsv", "k": ib(kb), "timeout": true})
 			hung = true // the spinning goroutine cannot be stopped; record nothing more, the test returns and the process ends
 		}
